@@ -70,7 +70,7 @@ def main():
         if confirmed:
             dst = os.path.join(HERE, "seeded", sid)
             os.makedirs(dst, exist_ok=True)
-            for f in ("patch.diff", "demo.c", "run.sh"):
+            for f in ("patch.diff", "demo.c", "demo.sh", "run.sh"):
                 if os.path.exists(os.path.join(src, f)):
                     shutil.copy(os.path.join(src, f), dst)
             meta["verified_by_us"] = ran
